@@ -8,7 +8,8 @@
 (*   op     delete | null | toString | toNumber | toArray | toObject |      *)
 (*          empty | dropElement | elemNumber | zero | negative | fraction |*)
 (*          idAlpha | idFloat | arrayLong | arrayShort | elemString |      *)
-(*          badString | crsUriObject | crsWkt | crsRefSys | sameAsPrev      *)
+(*          badString | crsUriObject | crsWkt | crsRefSys | sameAsPrev |    *)
+(*          fine (a number with more than nine decimals / of size 1e-12)    *)
 (* The property lists which documents MUST be rejected with an error       *)
 (* (missing CRS or tile matrices, wrong types, non-positive sizes,         *)
 (* non-integer ids; we read a missing required field as "incomplete");     *)
@@ -37,7 +38,9 @@ DocMut ==   \* <<field, op, class>>
     <<"boundingBox.crs", "delete", "nopanic">>, <<"boundingBox.crs", "null", "nopanic">>, <<"boundingBox.crs", "toNumber", "reject">>,
     <<"boundingBox.lowerLeft", "delete", "nopanic">>, <<"boundingBox.lowerLeft", "arrayLong", "reject">>,
     <<"boundingBox.lowerLeft", "arrayShort", "reject">>, <<"boundingBox.upperRight", "toString", "reject">>,
-    <<"boundingBox.upperRight", "elemString", "reject">>, <<"boundingBox.orderedAxes", "toNumber", "reject">> }
+    <<"boundingBox.upperRight", "elemString", "reject">>, <<"boundingBox.orderedAxes", "toNumber", "reject">>,
+    \* values no built-in document holds: more than nine decimals, 1e-12 (an encoder that rounds does not round-trip them)
+    <<"boundingBox.lowerLeft", "fine", "nopanic">>, <<"boundingBox.upperRight", "fine", "nopanic">> }
 TmMut ==
   { <<"id", "delete", "reject">>, <<"id", "toNumber", "reject">>, <<"id", "idAlpha", "reject">>, <<"id", "idFloat", "reject">>,
     <<"cellSize", "delete", "reject">>, <<"cellSize", "toString", "reject">>, <<"cellSize", "zero", "reject">>, <<"cellSize", "negative", "reject">>,
@@ -46,7 +49,8 @@ TmMut ==
     <<"scaleDenominator", "sameAsPrev", "nopanic">>, <<"cellSize", "sameAsPrev", "nopanic">>,      \* two matrices tie in a value
     <<"pointOfOrigin", "delete", "reject">>, <<"pointOfOrigin", "toString", "reject">>, <<"pointOfOrigin", "toNumber", "reject">>,
     <<"pointOfOrigin", "elemString", "reject">>, <<"pointOfOrigin", "arrayLong", "reject">>, <<"pointOfOrigin", "arrayShort", "reject">>,
-    <<"cornerOfOrigin", "toNumber", "reject">>, <<"cornerOfOrigin", "badString", "nopanic">>, <<"cornerOfOrigin", "delete", "nopanic">> }
+    <<"cornerOfOrigin", "toNumber", "reject">>, <<"cornerOfOrigin", "badString", "nopanic">>, <<"cornerOfOrigin", "delete", "nopanic">>,
+    <<"pointOfOrigin", "fine", "nopanic">>, <<"cellSize", "fine", "nopanic">>, <<"scaleDenominator", "fine", "nopanic">> }
   \cup UNION {{ <<s, "delete", "reject">>, <<s, "toString", "reject">>, <<s, "zero", "reject">>, <<s, "negative", "reject">>,
                 <<s, "fraction", "nopanic">> } : s \in Sizes}
 Positions == {"first", "mid", "last"}
